@@ -151,7 +151,7 @@ class OutputPool:
     def remove_batch(self, batch_index):
         """Remove the batch from all stores."""
         for store in self.stores.values():
-            if batch_index in store:
+            if store is not None and batch_index in store:
                 del store[batch_index]
 
     def has_store(self, node):
@@ -230,7 +230,8 @@ class OutputPool:
     def clear(self):
         """Remove all data from the stores."""
         for store in self.stores.values():
-            store.clear()
+            if store is not None:
+                store.clear()
 
     def save(self):
         """Save the pool to disk.
